@@ -515,17 +515,18 @@ def check_coordinate_dtypes(ctx):
         if it % 3 == 0:
             kinds = [np.int64] * nsets
         vs = [float(rng.uniform(1000, 6000)) for _ in range(nsets - 1)]
-        for wdt in (np.float64, np.float32):
+        for wdt in (np.float64, np.float32, None):      # None: the documented default working precision (float64), not passed
             res = {}
             for tag in ("typed", "float64"):
                 sets = [g.Points(np.asarray(a, dtype=(k if tag == "typed" else np.float64)), f"S{i}") for i, (a, k) in enumerate(zip(ints, kinds))]
                 fp = ray.FermatPath(tuple(x for k, s_ in enumerate(sets) for x in ((s_,) if k == 0 else (vs[k - 1], s_))))
                 try:
-                    res[tag] = ray.FermatSolver((fp,), dtype=wdt).solve()[fp]
+                    res[tag] = (ray.FermatSolver((fp,), dtype=wdt) if wdt is not None else ray.FermatSolver((fp,))).solve()[fp]
                 except Exception as e:
                     res[tag] = e
-            cj = {"op": "coordinate_dtypes", "coords": [a.tolist() for a in ints], "dtypes": [np.dtype(k).name for k in kinds], "velocities": vs, "working": np.dtype(wdt).name}
-            ctx.case(("coorddtype", it, np.dtype(wdt).name), True)
+            wname = "default (not passed)" if wdt is None else np.dtype(wdt).name
+            cj = {"op": "coordinate_dtypes", "coords": [a.tolist() for a in ints], "dtypes": [np.dtype(k).name for k in kinds], "velocities": vs, "working": wname}
+            ctx.case(("coorddtype", it, wname), True)
             ctx.count("coords:" + "/".join(sorted({np.dtype(k).kind for k in kinds})))
             a_, b_ = res["typed"], res["float64"]
             if isinstance(b_, Exception):
@@ -536,11 +537,11 @@ def check_coordinate_dtypes(ctx):
             # float32 coordinates are exactly these small integers, so every dtype denotes the same positions
             # (a float32 set makes the kernel take its square roots in single precision whatever the working precision:
             #  legitimate, and the first version of this check, with tolerance 0 there, raised a false alarm in the thorough tier)
-            tol = 0 if (wdt is np.float64 and np.float32 not in kinds) else 4e-7
+            tol = 0 if (wdt in (np.float64, None) and np.float32 not in kinds) else 4e-7
             if not np.allclose(a_.times, b_.times, rtol=tol, atol=0):
                 worst = float(np.max(np.abs(a_.times - b_.times) / np.abs(b_.times)))
                 ctx.violate(f"travel times differ (relative {worst:.2e}) when the same positions are held as {[np.dtype(k).name for k in kinds]} instead of float64 "
-                            f"(working precision {np.dtype(wdt).name})", cj, {"kind": "coordinate_dtype"})
+                            f"(working precision {wname})", cj, {"kind": "coordinate_dtype"})
 
 
 def emit(ctx, outs, case_json, tags=None):
